@@ -10,6 +10,9 @@ fn c02_state(cur_kind: u8) -> (Store, E) {
     let data = if cur_kind == 0 {
         // an unrelated sibling keeps the root's tree allocated
         n1(None, "b", n0(Some(ValueEntry::Plain(Value::Bool(true)))))
+    } else if cur_kind == 3 {
+        // the key is absent but its node exists: it is an inner node (a/b is stored)
+        n1(None, "a", n1(None, "b", n0(Some(ValueEntry::Plain(Value::Bool(true))))))
     } else {
         n1(None, "a", n0(Some(e.entry())))
     };
@@ -23,6 +26,7 @@ fn c02_table(cur_kind: u8, inc_cas: bool) {
     let nb: bool = kani::any();
     let nv: u64 = kani::any();
     let cur: u64 = if cur_kind == 2 { e.ver } else { 0 };
+    let absent = cur_kind == 0 || cur_kind == 3;
     let r = if inc_cas {
         store.insert_cas(&key, Value::Bool(nb), nv, false)
     } else {
@@ -55,13 +59,13 @@ fn c02_table(cur_kind: u8, inc_cas: bool) {
     }
     if ok {
         if let Ok((changed, _)) = &r {
-            let expect_changed = cur_kind == 0 || e.b != nb;
+            let expect_changed = absent || e.b != nb;
             assert!(*changed == expect_changed, "C02: value_changed flag");
         }
-        assert!(store.len() == if cur_kind == 0 { 2 } else { 1 }, "C02: entry count after accepted write");
+        assert!(store.len() == if absent { 2 } else { 1 }, "C02: entry count after accepted write");
     } else {
         // a rejected write changes nothing that a read of the key can observe
-        if cur_kind == 0 {
+        if absent {
             assert!(store.cget(&key).is_none() && store.get(&key).is_none(), "C02: rejected write on an absent key stores nothing");
         } else {
             assert!(holds(&store, &key, &e), "C02: rejected write leaves entry, kind and version unchanged");
@@ -79,6 +83,11 @@ fn c02_table(cur_kind: u8, inc_cas: bool) {
 #[kani::proof]
 #[kani::unwind(4)]
 fn c02_table_absent_cset() { c02_table(0, true) }
+
+// @h props=C02,C17 tier=quick cap=200 desc="cset on an absent key that is an inner node (has sub keys): all 2^64 versions, accepted iff version 0" bounds="key a, sub key a/b; value Bool; version u64"
+#[kani::proof]
+#[kani::unwind(4)]
+fn c02_table_inner_cset() { c02_table(3, true) }
 
 // @h props=C02,C17 tier=quick cap=200 desc="cset on a plain value: all 2^64 versions" bounds="key a; value Bool; version u64"
 #[kani::proof]
